@@ -25,6 +25,10 @@ def make_cases(tier, rng):
                 # after the host has closed its side of the broker
                 ops.append("accept_during_shutdown")
             cases.append({"name": "l%d" % len(cases), "proto": p, "tls": t, "launch": l, "ops": ops})
+    # many plugin-side brokered listeners open at the moment of the Kill (plain gRPC: each has a socket file; whether
+    # a serving goroutine gets to close its listener before the process exits is a race, so there are several)
+    for l in (["cmd"] if tier == "quick" else ["cmd", "runner", "cmd", "runner"]):
+        cases.append({"name": "l%d" % len(cases), "proto": "grpc", "tls": "", "launch": l, "ops": ["broker_h2p"] * 8})
     # calls whose peer never comes (not with multiplexing, where gRPC keeps re-dialling for a while)
     for p in ["netrpc", "grpc"]:
         for _ in range(1 if tier == "quick" else 4):
